@@ -201,11 +201,19 @@ def main():
         for name, bad in defects(rng, l0, sep):
             pos = rng.randint(0, len(base))
             text = base[:pos] + [bad] + base[pos:]
+            if rng.random() < 0.5:
+                # blank lines anywhere, also before the defective line: they are skipped but counted
+                for _ in range(rng.randint(1, 2)):
+                    q = rng.randint(0, len(text))
+                    text = text[:q] + [rng.choice(['', ' ', '  '])] + text[q:]
             unit = 'syllable' if sep[1] and rng.random() < 0.4 else 'phone'
             for tol in (False, True):
                 cases.append(text_case(text, sep, unit, cp, tol, 'text-' + name))
             if len(cli) < (160 if ck.thorough else 32):
                 cli.append(cli_case(text, sep, unit, cp, rng.random() < 0.6, rng.random() < 0.7, 'cli-' + name))
+            if name.startswith('punctuation') and k % 4 == 0:
+                # every option at once: tolerant, punctuation allowed, gold file
+                cli.append(cli_case(text, sep, unit, False, True, True, 'cli-tPg-' + name))
         cases.append(text_case(base, sep, 'phone', cp, False, 'text-wellformed'))
     # run the command line cases 16-wide
     with ThreadPoolExecutor(max_workers=16) as ex:
